@@ -407,8 +407,8 @@ def evaluate(spec, case, outcome, props=None):
                     arr = z3.Store(arr, K.id[lkey(kk)], K.setof(list(vv[1])))
                 result = VDict("dict", "set", K.setof([kk for kk, _ in rv[1]]), {"v": arr})
                 result.fresh_values = True
-            elif rv[0] == "d" and all(v[0] == "d" for _, v in rv[1]) is False and rv[0] == "d" and False:
-                pass
+            elif rv[0] == "l" and all(Concrete._hashable(x) for x in rv[1]):
+                result = VVal(K.id[lkey(rv)])  # a sub-view, observed as the list of its ids
             else:
                 return None
         elif isinstance(rk, str) and rk.startswith("dict:"):
